@@ -244,7 +244,9 @@ class World(object):
         boot.bootstrap()
         _install_seams()
         boot.reset_process_state(self.case.get('uuid_seed', 0),
-                                 self.case.get('clock_offset', 0.0))
+                                 self.case.get('clock_offset', 0.0),
+                                 keep_caches=bool(
+                                     self.case.get('keep_spec_cache')))
         for group, kv in (self.case.get('config') or {}).items():
             for k, v in kv.items():
                 g = None if group == 'DEFAULT' else group
